@@ -30,7 +30,7 @@ OUTSIDE = ['floating-point rounding and overflow', 'sizes other than those strad
 ASSUMPTIONS = ['BLAS axpy/scal/copy replaced by contract stubs on the (possibly aliased) raveled arrays in the '
                'BLAS regime; validated against the real BLAS by the concrete shadow run of every path']
 EXHAUSTIVE = True
-SETTINGS = {'max_paths': 600}
+SETTINGS = {'strict_definedness': False, 'max_paths': 600}
 CFG_TIMEOUT = {'quick': 240, 'thorough': 1800}
 PATTERNS = ('distinct', 'x1=x2', 'out=x1', 'out=x2', 'all')
 
